@@ -70,6 +70,19 @@ def run_shard(sh, rec):
             nt = 5 - prev[2]
             rec.count("sibling_objects_same_shape_other_domain_length")
         prev = (shape, xr, nt)
+        if k == 0:
+            # predecessor of the OTHER precision in this process with the same shape, domain length and thread count
+            other_t = np.float32 if real_t is np.float64 else np.float64
+            try:
+                if d == 2:
+                    sp_ = spne.UnboundedPoissonSolverPYFFTW2D(grid_size_y=shape[0], grid_size_x=shape[1], x_range=xr, num_threads=nt, real_t=other_t)
+                else:
+                    sp_ = spne.UnboundedPoissonSolverPYFFTW3D(shape[0], shape[1], shape[2], x_range=xr, num_threads=nt, real_t=other_t)
+                fo = util.field(rng, shape, "noise", other_t)
+                sp_.solve(solution_field=np.zeros_like(fo), rhs_field=fo)
+                rec.count("other_precision_predecessors")
+            except Exception as e:
+                rec.note(f"other-precision predecessor failed: {type(e).__name__}: {e}")
         if d == 2:
             s = spne.UnboundedPoissonSolverPYFFTW2D(grid_size_y=shape[0], grid_size_x=shape[1], x_range=xr, num_threads=nt, real_t=real_t)
         else:
